@@ -164,13 +164,17 @@ RCD = [(r"yasna::construct_der\(\s*\|writer\|\s*\{\s*(\w+)\.write_asn1\(writer\)
 RAS = [(r"\b(\w+) as OctetString\b", r"\1")]
 
 
+# which properties rely on each of the seven DER functions (C07 totality for all; C01: what cssp_connect compares / unseals comes from the
+# readers; C17: the credentials structure; C03: the three CredSSP messages)
+RELY = {"read_ts_server_challenge": "C07,C01,C03", "read_ts_validate": "C07,C01", "read_public_certificate": "C07,C01",
+        "create_ts_request": "C07,C03", "create_ts_authenticate": "C07,C01,C03", "create_ts_credentials": "C07,C17,C01", "create_ts_authinfo": "C07,C17,C01"}
 def cl(name, cid):
-    return [("C07", "%s-%d" % (cid, i + 1), t) for i, t in enumerate(PROVED[name])]
+    return [(RELY[name], "%s-%d" % (cid, i + 1), t) for i, t in enumerate(PROVED[name])]
 
 
 # ---------------- readers (hostile bytes)
 TOKEN_LAYOUT = 'seq![("negoToken"@, AV::Octets(Seq::<u8>::empty()))]'
-A(Fn(CSSP, "read_ts_server_challenge", mod="cssp", props=["C07"], body_sub=RPD,
+A(Fn(CSSP, "read_ts_server_challenge", mod="cssp", props=RELY["read_ts_server_challenge"].split(","), body_sub=RPD,
      closures={1: dict(params="", ret="-> (r: Box<Sequence>)", spec="ensures r.fields() =~= %s" % TOKEN_LAYOUT)},
      ensures=cl("read_ts_server_challenge", "first-nego-token"),
      pre="proof { reveal_with_fuel(a_same_shape, 3); }",
@@ -204,7 +208,7 @@ A(Fn(CSSP, "read_ts_server_challenge", mod="cssp", props=["C07"], body_sub=RPD,
     }""" % TOKEN_LAYOUT),
      ]))
 
-A(Fn(CSSP, "read_ts_validate", mod="cssp", props=["C07"], body_sub=RPD,
+A(Fn(CSSP, "read_ts_validate", mod="cssp", props=RELY["read_ts_validate"].split(","), body_sub=RPD,
      ensures=cl("read_ts_validate", "pub-key-auth"),
      hints=[
          (r"parse_der_into\(", 1, "let ghost f0 = ts_challenge.fields();", "before"),
@@ -225,7 +229,7 @@ A(Fn(CSSP, "read_ts_validate", mod="cssp", props=["C07"], body_sub=RPD,
      ]))
 
 # closure #1 is `|_| Error::RdpError(..)` handed to map_err: Verus wants a named, typed parameter (the closure body is verbatim)
-A(Fn(CSSP, "read_public_certificate", mod="cssp", props=["C07"],
+A(Fn(CSSP, "read_public_certificate", mod="cssp", props=RELY["read_public_certificate"].split(","),
      closures={1: dict(params="_e: X509Error", ret="-> (r: Error)", spec="")},
      ensures=cl("read_public_certificate", "subject-key")))
 
@@ -237,19 +241,19 @@ def _nego_tokens_hint(seqname):
         assert(f[1].1->SeqOf_0 =~= seq![AV::Seq(seq![("negoToken"@, AV::Octets(nego@))])]);
         assert(f[1].1 == nego_tokens_av(nego@));""" % seqname
 
-A(Fn(CSSP, "create_ts_request", mod="cssp", props=["C07"], ensures=cl("create_ts_request", "der"),
+A(Fn(CSSP, "create_ts_request", mod="cssp", props=RELY["create_ts_request"].split(","), ensures=cl("create_ts_request", "der"),
      hints=[(r"to_der\(&ts_request\)", 1, """proof {
         lemma_cssp_keys(); broadcast use axiom_der_ts_request;
         %s
         assert(f =~= seq![("version"@, AV::U32(2)), ("negoTokens"@, nego_tokens_av(nego@))]);
     }""" % _nego_tokens_hint("ts_request"), "before")]))
-A(Fn(CSSP, "create_ts_authenticate", mod="cssp", props=["C07"], body_sub=RAS, ensures=cl("create_ts_authenticate", "der"),
+A(Fn(CSSP, "create_ts_authenticate", mod="cssp", props=RELY["create_ts_authenticate"].split(","), body_sub=RAS, ensures=cl("create_ts_authenticate", "der"),
      hints=[(r"to_der\(&ts_challenge\)", 1, """proof {
         lemma_cssp_keys(); broadcast use axiom_der_ts_authenticate;
         %s
         assert(f =~= seq![("version"@, AV::U32(2)), ("negoTokens"@, nego_tokens_av(nego@)), ("pubKeyAuth"@, AV::Octets(pub_key_auth@))]);
     }""" % _nego_tokens_hint("ts_challenge"), "before")]))
-A(Fn(CSSP, "create_ts_credentials", mod="cssp", props=["C07"], body_sub=RCD + RAS, ensures=cl("create_ts_credentials", "der"),
+A(Fn(CSSP, "create_ts_credentials", mod="cssp", props=RELY["create_ts_credentials"].split(","), body_sub=RCD + RAS, ensures=cl("create_ts_credentials", "der"),
      hints=[(r"let ts_password_cred_encoded = ", 1, """proof {
         lemma_cssp_keys(); broadcast use axiom_der_ts_credentials;
         assert(ts_password_creds.fields() =~= seq![("domainName"@, AV::Octets(domain@)), ("userName"@, AV::Octets(user@)), ("password"@, AV::Octets(password@))]);
@@ -258,7 +262,7 @@ A(Fn(CSSP, "create_ts_credentials", mod="cssp", props=["C07"], body_sub=RCD + RA
             (r"to_der\(&ts_credentials\)", 1, """proof {
         assert(ts_credentials.fields() =~= seq![("credType"@, AV::U32(1)), ("credentials"@, AV::Octets(inner_der))]);
     }""", "before")]))
-A(Fn(CSSP, "create_ts_authinfo", mod="cssp", props=["C07"], ensures=cl("create_ts_authinfo", "der"),
+A(Fn(CSSP, "create_ts_authinfo", mod="cssp", props=RELY["create_ts_authinfo"].split(","), ensures=cl("create_ts_authinfo", "der"),
      hints=[(r"to_der\(&ts_authinfo\)", 1, """proof {
         lemma_cssp_keys(); broadcast use axiom_der_ts_authinfo;
         assert(ts_authinfo.fields() =~= seq![("version"@, AV::U32(2)), ("authInfo"@, AV::Octets(auth_info@))]);
